@@ -67,6 +67,16 @@ def gen(names, nbox, nact, maxops, minops=1, first=None, max_slots=4):
             yield dict(mbox=nbox, actors=ex)
     return g
 
+def gen_deep_filter(tagsets, wantsets):
+    """several senders each blocked on one filtered send (>=4 pending comms), one receiver draining with filtered receives:
+    a filter that skips the head of a long queue, then takes from its middle"""
+    def g():
+        for tags in tagsets:
+            for wants in wantsets:
+                actors = [[("sendf", 0, (i + 1) * 10 + 1, t)] for i, t in enumerate(tags)] + [[("recvf", 0, w) for w in wants]]
+                yield dict(mbox=1, actors=actors)
+    return g
+
 def bounds(ctx):
     basic = ("put", "get", "PA", "GA", "GT", "det")
     b = [("basic-A2K2", gen(basic, 1, 2, 2)),
@@ -74,7 +84,8 @@ def bounds(ctx):
          ("perm-A2K2", gen(("put", "get", "PA", "GA", "det"), 1, 2, 2, first=("setr", 0))),
          ("any-A2K2", gen(("P2any", "G2any", "G2tany", "put", "get"), 1, 2, 2)),
          ("basic-A3K1", gen(basic + ("PT",), 1, 3, 1)),
-         ("twobox-A2K2", gen(("put", "get"), 2, 2, 2))]
+         ("twobox-A2K2", gen(("put", "get"), 2, 2, 2)),
+         ("deep-filter", gen_deep_filter([(1, 2, 2, 2), (2, 1, 2, 2)], list(itertools.product((1, 2), repeat=3))))]
     if not ctx.quick:
         b += [("basic-A3K2", gen(("put", "get", "PA", "GA", "det"), 1, 3, 2, 2)),
               ("filter-A3K2", gen(("s1", "s2", "r1", "r2"), 1, 3, 2, 2)),
@@ -82,7 +93,8 @@ def bounds(ctx):
               ("basic-A2K3", gen(("put", "get", "PA", "GT", "det"), 1, 2, 3, 3)),
               ("any-A3K1", gen(("P2any", "G2any", "G2tany", "put", "get", "det"), 1, 3, 1)),
               ("twobox-A3K2", gen(("put", "get"), 2, 3, 2, 2)),
-              ("basic-A4K1", gen(basic, 1, 4, 1))]
+              ("basic-A4K1", gen(basic, 1, 4, 1)),
+              ("deep-filter-all", gen_deep_filter(list(itertools.product((1, 2), repeat=4)), list(itertools.product((1, 2), repeat=3))))]
     return b
 
 def run(ctx):
